@@ -149,7 +149,7 @@ theorem assocAll_spec (s : St) (h : Inv s) (c : Nat) : ∀ (l : List Nat) (mem :
 theorem inv_regColl (s : St) (h : Inv s) (c : Nat) (t : CType) : Inv (regColl s c t).1 := by
   unfold regColl
   split
-  · exact h
+  · split <;> exact h
   · rename_i hn
     exact ⟨h.uniq, h.ids, h.rows, h.inRun, fun d hd => ctype_cons_other s c d.run t hn _ (h.runType d hd)⟩
 
@@ -318,7 +318,7 @@ theorem datasets_step (s : St) (op : Op) :
       (s.ds d.id = none ∧ (∃ ty key run, op = .insert d.id ty key run ∨ op = .importDs d.id ty key run)) := by
   intro d hd
   cases op with
-  | regColl c t => left; simp only [step, regColl] at hd; split at hd <;> exact hd
+  | regColl c t => left; simp only [step, regColl] at hd; split at hd <;> (try split at hd) <;> exact hd
   | regType t defn => left; simp only [step, regType] at hd; split at hd <;> (try split at hd) <;> exact hd
   | insert id ty key run =>
     simp only [step, Registry.insert] at hd
@@ -423,7 +423,7 @@ theorem tagged_only_by_associate (s : St) (h : Inv s) (op : Op) (c : Nat) (hc : 
       simp; intro e; rw [e, hc] at hr; cases hr
     simp [St.members, addDataset, List.filter_cons, hne]
   cases op with
-  | regColl c' t => simp only [step, regColl]; split <;> rfl
+  | regColl c' t => simp only [step, regColl]; split <;> (try split) <;> rfl
   | regType t defn => simp only [step, regType]; split <;> (try split) <;> rfl
   | insert id ty key run =>
     simp only [step, Registry.insert]
